@@ -15,6 +15,7 @@
 #include <stdarg.h>
 #include <sched.h>
 #include <string.h>
+#include <errno.h>
 #include <stdio.h>
 #include <stdlib.h>
 #include <unistd.h>
@@ -272,6 +273,10 @@ static void thread_warmup(void) {
 }
 
 static RunInfo run_one(const sim::Plan &p) {
+    // the main thread is the only thread that lives across runs: its thread-local error state must not carry over from one run to the
+    // next (a run has to be a function of its plan alone)
+    errno = 0;
+    aws_reset_error();
     g_cur_plan = &p;
     RunInfo ri = g_h->run(p);
     g_cur_plan = nullptr;
